@@ -82,14 +82,15 @@ def gen_script(rng):
 
 def script_oracle(line, ans):
     """Model-free reading of the property on one script: a python specification of what each call must
-    answer (FIFO values, documented errors, never a crash). WaitGroup misuse is outside the property."""
+    answer (FIFO values, documented errors, never a crash, WaitGroup counting). WaitGroup misuse (negative
+    counter) is outside the property."""
     ops = [o.split(" ") for o in line.split("\t")[2].split(";") if o]
     if ans.startswith("fatal"):
         return "the process died: " + ans[:120]
     if not ans.startswith("ok "):
         return None
     outs = ans[3:].split(",") if len(ans) > 3 else []
-    ch, mu, rw, on = {}, {}, {}, {}
+    ch, mu, rw, on, wg = {}, {}, {}, {}, {}
     for k, op in enumerate(ops):
         if k >= len(outs):
             return None
@@ -146,10 +147,27 @@ def script_oracle(line, ans):
         elif a == "oc":
             on[i] = 1
             want = "v1"
-        elif a in ("wn", "wa", "wr", "ww"):
-            if o in ("panic", "block"):
+        elif a == "wn":
+            wg[i] = 0
+        elif a in ("wa", "wr", "ww"):
+            # counting contract for correct use; a counter driven below zero is misuse (outside the property)
+            if wg.get(i) is None:
                 return None
-            continue
+            if a == "wa":
+                k2 = int(op[2])
+                if wg[i] + k2 < 0:
+                    return None
+                wg[i] += k2
+                want = "ok"
+            elif a == "wr":
+                k2 = int(op[2])
+                if k2 > wg[i]:
+                    return None
+                if k2 > 0:
+                    wg[i] -= k2
+                want = "ok"
+            else:
+                want = "ok" if wg[i] == 0 else "block"
         if want is not None and o != want:
             return "call %d (%s) answered %s, the contract requires %s" % (k, " ".join(op), o, want)
         if o in ("block", "panic"):
